@@ -127,9 +127,9 @@ def s_C18(tier, rng):
 ALLMON = ["C01", "C02", "C04", "C06", "C07", "C08", "C10", "C12", "C13", "C14", "C16", "C18", "EXP"]
 
 PROPS = {
-    "C01": {"streams": s_C01, "monitors": ["C01"], "conc_monitors": ["C03", "C05", "C16"]},
+    "C01": {"translate": ["arena", "lockfree"], "streams": s_C01, "monitors": ["C01"], "conc_monitors": ["C03", "C05", "C16"]},
     "C02": {"streams": s_C02, "monitors": ["C02"], "props_extra": ["C02H"], "conc_monitors": ["C03"]},
-    "C04": {"streams": s_C04, "monitors": ["C04"], "conc_monitors": ["C05", "C04", "PANIC"], "props_extra": ["C04D"], "translate": ["arena", "lockfree"]},
+    "C04": {"streams": s_C04, "monitors": ["C04"], "conc_monitors": ["C05", "C04", "PANIC"], "props_extra": ["C04D", "C05R"], "orderings": True, "sreplay": True, "translate": ["arena", "lockfree"]},
     "C06": {"streams": s_C06, "monitors": ["C06", "C01", "C02"], "props_extra": ["C06B"]},
     "C07": {"streams": s_C07, "monitors": ["C07"], "conc_monitors": ["C07"]},
     "C08": {"streams": s_C08, "monitors": ["C08"], "translate": ["arena", "lockfree"]},
